@@ -2,9 +2,517 @@ package main
 
 import (
 	"fmt"
+	"go/ast"
+	"go/token"
+	"sort"
 	"strings"
 )
 
+// Path-sensitive lock-set analysis of the package's functions (DESIGN.md 4.9).
+// An abstract interpreter over Go's structured statements tracks the set of mutexes that are *certainly* held
+// (must-hold) at every statement; it records, for every operation of interest, the lock set it runs under:
+//   conn-write   a write-side operation on the websocket connection (NextWriter, WriteJSON, WriteMessage, message
+//                writer Close/Write, Encoder.Encode into a writer obtained under the lock, conn.Close)
+//   conn-swap    assignment to c.conn
+//   conn-control WriteControl (gorilla serialises it itself; exempt from writeLk)
+//   map:<field>  read / write / delete / range of one of the guarded fields
+//   lock:<m>     acquisition of mutex m (for the lock-order graph)
+// It fails closed: a statement form it does not understand aborts the translation.
+
+type lockRow struct {
+	fn    string
+	op    string
+	what  string
+	locks []string
+	line  int
+}
+
+type lockAnalysis struct {
+	p    *pkg
+	rows []lockRow
+	// lock set under which a function invokes its callback parameter: fn -> param name -> locks
+	cbLocks map[string][]string
+	cur     string
+}
+
+var guardedFields = map[string]string{"inflight": "c.inflightLk", "handling": "c.handlingLk", "chanHandlers": "c.chanHandlersLk", "incomingErr": "c.errLk"}
+
+type lset map[string]bool
+
+func (s lset) copy() lset {
+	o := lset{}
+	for k := range s {
+		o[k] = true
+	}
+	return o
+}
+func (s lset) list() []string {
+	var o []string
+	for k := range s {
+		o = append(o, k)
+	}
+	sort.Strings(o)
+	return o
+}
+func inter(a, b lset) lset {
+	o := lset{}
+	for k := range a {
+		if b[k] {
+			o[k] = true
+		}
+	}
+	return o
+}
+
+// result of analysing a block: the lock set on fall-through (nil if the block never falls through)
+func (la *lockAnalysis) block(stmts []ast.Stmt, held lset, deferred lset, w map[string]bool) lset {
+	cur := held
+	for _, st := range stmts {
+		if cur == nil {
+			return nil // unreachable code after return
+		}
+		cur = la.stmt(st, cur, deferred, w)
+	}
+	return cur
+}
+
+func isMutexCall(ce *ast.CallExpr) (mutex, method string, ok bool) {
+	se, ok2 := ce.Fun.(*ast.SelectorExpr)
+	if !ok2 {
+		return "", "", false
+	}
+	if se.Sel.Name != "Lock" && se.Sel.Name != "Unlock" {
+		return "", "", false
+	}
+	m := exprString(se.X)
+	if strings.HasSuffix(m, "Lk") || strings.HasSuffix(m, ".lk") || strings.HasSuffix(m, "Lock") {
+		return m, se.Sel.Name, true
+	}
+	return "", "", false
+}
+
+func (la *lockAnalysis) record(op, what string, held lset, pos token.Pos) {
+	la.rows = append(la.rows, lockRow{fn: la.cur, op: op, what: what, locks: held.list(), line: fset.Position(pos).Line})
+}
+
+// expressions: look for operations of interest; function literals are analysed as separate paths
+func (la *lockAnalysis) expr(e ast.Node, held lset, w map[string]bool) {
+	if e == nil {
+		return
+	}
+	handled := map[*ast.FuncLit]bool{}
+	ast.Inspect(e, func(n ast.Node) bool {
+		switch v := n.(type) {
+		case *ast.FuncLit:
+			if !handled[v] {
+				// a function value stored or passed around: runs later, on its own, with no lock of ours held
+				la.funcLit(v, fmt.Sprintf("%s$lit@%d", la.cur, fset.Position(v.Pos()).Line), lset{}, map[string]bool{})
+			}
+			return false
+		case *ast.CallExpr:
+			fs := exprString(v.Fun)
+			// callbacks handed to functions that invoke them under a known lock set
+			for i, a := range v.Args {
+				if fl, ok := a.(*ast.FuncLit); ok {
+					handled[fl] = true
+					callee := fs[strings.LastIndex(fs, ".")+1:]
+					start := lset{}
+					if ls, ok := la.cbLocks[callee]; ok {
+						for _, l := range ls {
+							start[l] = true
+						}
+					}
+					la.funcLit(fl, fmt.Sprintf("%s$cb(%s#%d)", la.cur, callee, i), start, writerParams(fl, start))
+				}
+			}
+			switch {
+			case strings.HasSuffix(fs, ".WriteControl"):
+				la.record("conn-control", fs, held, v.Pos())
+			case strings.HasSuffix(fs, "conn.WriteJSON"), strings.HasSuffix(fs, "conn.WriteMessage"), strings.HasSuffix(fs, "conn.NextWriter"):
+				la.record("conn-write", fs, held, v.Pos())
+			case fs == "c.conn.Close":
+				la.record("conn-write", fs, held, v.Pos())
+			case fs == "delete" && len(v.Args) == 2:
+				for f := range guardedFields {
+					if strings.HasSuffix(exprString(v.Args[0]), "."+f) {
+						la.record("map:"+f, "delete", held, v.Pos())
+					}
+				}
+			default:
+				// writes through a message writer / an io.Writer known to be the connection's
+				if se, ok := v.Fun.(*ast.SelectorExpr); ok {
+					recv := exprString(se.X)
+					if w[recv] && (se.Sel.Name == "Close" || se.Sel.Name == "Write") {
+						la.record("conn-write", fs, held, v.Pos())
+					}
+					if se.Sel.Name == "Encode" {
+						if ce, ok := se.X.(*ast.CallExpr); ok && exprString(ce.Fun) == "json.NewEncoder" && len(ce.Args) == 1 && w[exprString(ce.Args[0])] {
+							la.record("conn-write", "json.NewEncoder("+exprString(ce.Args[0])+").Encode", held, v.Pos())
+						}
+					}
+				}
+			}
+		case *ast.SelectorExpr:
+			for f := range guardedFields {
+				if v.Sel.Name == f && exprString(v.X) == "c" {
+					la.record("map:"+f, "access", held, v.Pos())
+				}
+			}
+		}
+		return true
+	})
+}
+
+// io.Writer / message-writer parameters of a callback that runs under the write lock are the connection's writer
+func writerParams(fl *ast.FuncLit, start lset) map[string]bool {
+	w := map[string]bool{}
+	if !start["c.writeLk"] {
+		return w
+	}
+	for _, f := range fl.Type.Params.List {
+		if exprString(f.Type) == "io.Writer" {
+			for _, n := range f.Names {
+				w[n.Name] = true
+			}
+		}
+	}
+	return w
+}
+
+func (la *lockAnalysis) funcLit(fl *ast.FuncLit, name string, start lset, w map[string]bool) {
+	saved := la.cur
+	la.cur = name
+	la.block(fl.Body.List, start.copy(), lset{}, w)
+	la.cur = saved
+}
+
+func (la *lockAnalysis) stmt(st ast.Stmt, held lset, deferred lset, w map[string]bool) lset {
+	switch v := st.(type) {
+	case *ast.ExprStmt:
+		if ce, ok := v.X.(*ast.CallExpr); ok {
+			if m, meth, ok := isMutexCall(ce); ok {
+				h := held.copy()
+				if meth == "Lock" {
+					la.record("lock:"+m, "Lock", held, v.Pos())
+					h[m] = true
+				} else {
+					delete(h, m)
+				}
+				return h
+			}
+		}
+		la.expr(v.X, held, w)
+		return held
+	case *ast.DeferStmt:
+		if m, meth, ok := isMutexCall(v.Call); ok && meth == "Unlock" {
+			deferred[m] = true // stays held until the function returns
+			return held
+		}
+		if fl, ok := v.Call.Fun.(*ast.FuncLit); ok {
+			la.funcLit(fl, la.cur+"$defer", held.copy(), w)
+			return held
+		}
+		la.expr(v.Call, held, w)
+		return held
+	case *ast.GoStmt:
+		if fl, ok := v.Call.Fun.(*ast.FuncLit); ok {
+			la.funcLit(fl, la.cur+"$go", lset{}, map[string]bool{})
+		} else {
+			la.expr(v.Call, lset{}, map[string]bool{})
+		}
+		return held
+	case *ast.AssignStmt:
+		for _, l := range v.Lhs {
+			if exprString(l) == "c.conn" {
+				la.record("conn-swap", "c.conn =", held, v.Pos())
+			}
+			if se, ok := l.(*ast.SelectorExpr); ok {
+				for f := range guardedFields {
+					if se.Sel.Name == f && exprString(se.X) == "c" {
+						la.record("map:"+f, "assign", held, v.Pos())
+					}
+				}
+			}
+			if ix, ok := l.(*ast.IndexExpr); ok {
+				la.expr(ix, held, w)
+			}
+		}
+		// a message writer obtained from the connection under the lock
+		if len(v.Rhs) == 1 {
+			if ce, ok := v.Rhs[0].(*ast.CallExpr); ok && strings.HasSuffix(exprString(ce.Fun), "conn.NextWriter") && len(v.Lhs) >= 1 {
+				w[exprString(v.Lhs[0])] = true
+			}
+		}
+		for _, r := range v.Rhs {
+			la.expr(r, held, w)
+		}
+		return held
+	case *ast.ReturnStmt:
+		for _, r := range v.Results {
+			la.expr(r, held, w)
+		}
+		return nil
+	case *ast.BranchStmt: // break / continue: leaves the enclosing construct; treated as no fall-through of this block
+		return nil
+	case *ast.IfStmt:
+		if v.Init != nil {
+			held = la.stmt(v.Init, held, deferred, w)
+		}
+		la.expr(v.Cond, held, w)
+		t := la.block(v.Body.List, held.copy(), deferred, w)
+		var e lset = held
+		if v.Else != nil {
+			switch el := v.Else.(type) {
+			case *ast.BlockStmt:
+				e = la.block(el.List, held.copy(), deferred, w)
+			case *ast.IfStmt:
+				e = la.stmt(el, held.copy(), deferred, w)
+			}
+		}
+		switch {
+		case t == nil && e == nil:
+			return nil
+		case t == nil:
+			return e
+		case e == nil:
+			return t
+		default:
+			return inter(t, e)
+		}
+	case *ast.ForStmt:
+		if v.Init != nil {
+			held = la.stmt(v.Init, held, deferred, w)
+		}
+		la.expr(v.Cond, held, w)
+		la.block(v.Body.List, held.copy(), deferred, w)
+		return held
+	case *ast.RangeStmt:
+		la.expr(v.X, held, w)
+		la.block(v.Body.List, held.copy(), deferred, w)
+		return held
+	case *ast.SwitchStmt:
+		if v.Init != nil {
+			held = la.stmt(v.Init, held, deferred, w)
+		}
+		la.expr(v.Tag, held, w)
+		return la.cases(v.Body.List, held, deferred, w)
+	case *ast.TypeSwitchStmt:
+		return la.cases(v.Body.List, held, deferred, w)
+	case *ast.SelectStmt:
+		return la.cases(v.Body.List, held, deferred, w)
+	case *ast.BlockStmt:
+		return la.block(v.List, held, deferred, w)
+	case *ast.LabeledStmt:
+		return la.stmt(v.Stmt, held, deferred, w)
+	case *ast.DeclStmt, *ast.IncDecStmt, *ast.EmptyStmt:
+		return held
+	case *ast.SendStmt:
+		la.expr(v.Chan, held, w)
+		la.expr(v.Value, held, w)
+		return held
+	}
+	die("lock analysis: unsupported statement %T at %s", st, fset.Position(st.Pos()))
+	return nil
+}
+
+func (la *lockAnalysis) cases(clauses []ast.Stmt, held lset, deferred lset, w map[string]bool) lset {
+	var out lset
+	first := true
+	hasDefault := false
+	for _, c := range clauses {
+		var body []ast.Stmt
+		switch cc := c.(type) {
+		case *ast.CaseClause:
+			body = cc.Body
+			if cc.List == nil {
+				hasDefault = true
+			}
+			for _, e := range cc.List {
+				la.expr(e, held, w)
+			}
+		case *ast.CommClause:
+			body = cc.Body
+			if cc.Comm == nil {
+				hasDefault = true
+			} else {
+				la.stmt(cc.Comm, held.copy(), deferred, w)
+			}
+		}
+		r := la.block(body, held.copy(), deferred, w)
+		if r != nil {
+			if first {
+				out = r
+				first = false
+			} else {
+				out = inter(out, r)
+			}
+		}
+	}
+	_ = hasDefault
+	if first {
+		// no clause falls through (all return / break): for loops around selects this means "leave"; keep entry set
+		return held
+	}
+	return inter(out, held)
+}
+
 func genLockTableImpl(b *strings.Builder, root *pkg) {
-	fmt.Fprintf(b, "(* GENERATED by tools/gotocoq. *)\nFrom Coq Require Import String List.\nImport ListNotations.\n")
+	la := &lockAnalysis{p: root, cbLocks: map[string][]string{}}
+	// pass 1: under which lock set does each function invoke its callback parameter named cb?
+	for _, fn := range root.sortedFiles() {
+		for _, d := range root.files[fn].Decls {
+			fd, ok := d.(*ast.FuncDecl)
+			if !ok || fd.Body == nil {
+				continue
+			}
+			probe := &lockAnalysis{p: root, cbLocks: map[string][]string{}, cur: fd.Name.Name}
+			cbs := map[string]bool{}
+			for _, f := range fd.Type.Params.List {
+				if _, ok := f.Type.(*ast.FuncType); ok {
+					for _, n := range f.Names {
+						cbs[n.Name] = true
+					}
+				}
+			}
+			if len(cbs) == 0 {
+				continue
+			}
+			probe.findCallbackLocks(fd, cbs, la.cbLocks)
+		}
+	}
+	// pass 2: the table
+	for _, fn := range root.sortedFiles() {
+		for _, d := range root.files[fn].Decls {
+			fd, ok := d.(*ast.FuncDecl)
+			if !ok || fd.Body == nil {
+				continue
+			}
+			la.cur = fd.Name.Name
+			la.block(fd.Body.List, lset{}, lset{}, map[string]bool{})
+		}
+	}
+	w := func(f string, a ...interface{}) { fmt.Fprintf(b, f+"\n", a...) }
+	w("(* GENERATED by tools/gotocoq (lock-set analysis) from /repo's working tree. Do not edit. *)")
+	w("From Coq Require Import String List ZArith.")
+	w("Import ListNotations.")
+	w("Open Scope string_scope.")
+	w("")
+	w("(* (function or path, operation, detail, mutexes certainly held, source line) *)")
+	w("Definition lock_rows : list (string * string * string * list string * Z) := [")
+	for i, r := range la.rows {
+		sep := ";"
+		if i == len(la.rows)-1 {
+			sep = ""
+		}
+		w("  (%s, %s, %s, %s, %d%%Z)%s", coqStr(r.fn), coqStr(r.op), coqStr(r.what), strList(r.locks), r.line, sep)
+	}
+	w("].")
+	w("")
+	w("(* lock set under which a function invokes its callback parameter *)")
+	var cbn []string
+	for k := range la.cbLocks {
+		cbn = append(cbn, k)
+	}
+	sort.Strings(cbn)
+	var items []string
+	for _, k := range cbn {
+		items = append(items, fmt.Sprintf("(%s, %s)", coqStr(k), strList(la.cbLocks[k])))
+	}
+	w("Definition callback_locks : list (string * list string) := [%s].", strings.Join(items, "; "))
+	w("")
+	w("(* the delegated (lazy) response writer, handler.go: textual facts the hand-over protocol rests on *)")
+	lw1, lw2, lw3 := lazyWriterFacts(root)
+	w("Definition lazy_write_after_acquired : bool := %s.", coqBool(lw1))
+	w("Definition lazy_callback_waits_done : bool := %s.", coqBool(lw2))
+	w("Definition lazy_done_closed_after_cb : bool := %s.", coqBool(lw3))
+}
+
+func (la *lockAnalysis) findCallbackLocks(fd *ast.FuncDecl, cbs map[string]bool, out map[string][]string) {
+	// run the interpreter and intercept calls cb(...)
+	var walk func(stmts []ast.Stmt, held lset) lset
+	deferred := lset{}
+	walk = func(stmts []ast.Stmt, held lset) lset {
+		cur := held
+		for _, st := range stmts {
+			if cur == nil {
+				return nil
+			}
+			if es, ok := st.(*ast.ExprStmt); ok {
+				if ce, ok := es.X.(*ast.CallExpr); ok {
+					if id, ok := ce.Fun.(*ast.Ident); ok && cbs[id.Name] {
+						out[fd.Name.Name] = cur.list()
+					}
+				}
+			}
+			cur = la.stmt(st, cur, deferred, map[string]bool{})
+		}
+		return cur
+	}
+	walk(fd.Body.List, lset{})
+}
+
+func lazyWriterFacts(p *pkg) (writeAfterAcquired, cbWaitsDone, doneAfterCb bool) {
+	fd := p.funcDecl("lazyWriter", "Write")
+	if fd == nil {
+		die("lazyWriter.Write not found")
+	}
+	// (1) `return lw.w.Write(p)` is the last statement and the only use of lw.w.Write; the select on <-acquired precedes it
+	var selPos, writePos token.Pos
+	nWrites := 0
+	ast.Inspect(fd.Body, func(n ast.Node) bool {
+		switch v := n.(type) {
+		case *ast.CommClause:
+			if es, ok := v.Comm.(*ast.ExprStmt); ok && exprString2(es.X) == "<-acquired" {
+				selPos = v.Pos()
+			}
+		case *ast.CallExpr:
+			if exprString(v.Fun) == "lw.w.Write" {
+				nWrites++
+				writePos = v.Pos()
+			}
+		}
+		return true
+	})
+	writeAfterAcquired = nWrites == 1 && selPos != 0 && selPos < writePos
+	// (2) the callback handed to withWriterFunc sets lw.w, closes acquired and then waits for <-lw.done
+	ast.Inspect(fd.Body, func(n ast.Node) bool {
+		ce, ok := n.(*ast.CallExpr)
+		if !ok || exprString(ce.Fun) != "lw.withWriterFunc" || len(ce.Args) != 1 {
+			return true
+		}
+		fl, ok := ce.Args[0].(*ast.FuncLit)
+		if !ok {
+			return true
+		}
+		var seq []string
+		for _, st := range fl.Body.List {
+			switch v := st.(type) {
+			case *ast.AssignStmt:
+				seq = append(seq, exprString(v.Lhs[0])+"=")
+			case *ast.ExprStmt:
+				seq = append(seq, exprString2(v.X))
+			}
+		}
+		s := strings.Join(seq, ";")
+		cbWaitsDone = strings.Contains(s, "lw.w=") && strings.Contains(s, "close(acquired)") && strings.HasSuffix(s, "<-lw.done") &&
+			strings.Index(s, "lw.w=") < strings.Index(s, "close(acquired)")
+		return true
+	})
+	// (3) withLazyWriter: `defer close(lw.done)` then `cb(lw)`
+	wd := p.anyFunc("withLazyWriter")
+	if wd == nil {
+		die("withLazyWriter not found")
+	}
+	var seq []string
+	for _, st := range wd.Body.List {
+		switch v := st.(type) {
+		case *ast.DeferStmt:
+			seq = append(seq, "defer "+exprString2(v.Call))
+		case *ast.ExprStmt:
+			seq = append(seq, exprString2(v.X))
+		}
+	}
+	s := strings.Join(seq, ";")
+	doneAfterCb = strings.Contains(s, "defer close(lw.done);cb(lw)")
+	return
 }
